@@ -12,14 +12,15 @@ import (
 
 // GenCfg selects the shape of generated generator expressions.
 type GenCfg struct {
-	Depth       int
-	Hostile     bool // parameters at type extremes, empty ranges, ...
-	RejectHeavy bool // favour rejection based nodes over small domains (C01/C04)
-	Custom      bool // allow Custom nodes
-	Make        bool // allow Make nodes
-	BigRegexp   bool // allow regexps with negated classes / dots (large rune tables)
-	CustomStmts bool // Custom bodies may skip, signal, register cleanups, probe contexts
-	SmallInts   bool // leaf integers from small ranges (values that shrink visibly)
+	Depth             int
+	Hostile           bool // parameters at type extremes, empty ranges, ...
+	RejectHeavy       bool // favour rejection based nodes over small domains (C01/C04)
+	Custom            bool // allow Custom nodes
+	Make              bool // allow Make nodes
+	BigRegexp         bool // allow regexps with negated classes / dots (large rune tables)
+	CustomStmts       bool // Custom bodies may skip, signal, register cleanups, probe contexts
+	SmallInts         bool // leaf integers from small ranges (values that shrink visibly)
+	CleanupBeforeSkip bool // Custom bodies register a (non-signalling) cleanup before the part that may skip (C10)
 }
 
 func pick[T any](dt *drv.T, label string, xs ...T) T {
@@ -489,29 +490,37 @@ func genCustomSpec(dt *drv.T, cfg GenCfg) *GenSpec {
 	s := &GenSpec{K: "custom"}
 	inner := cfg
 	inner.Custom = false // one level of Custom nesting is enough to reach the inner-T code paths
-	if cfg.CustomStmts && chance(dt, "cskipfirst", 15) {
+	if cfg.CustomStmts && chance(dt, "cskipfirst", 10) {
 		// skipping before any draw: the function is retried and finally rejected
 		s.Body = append(s.Body, &Stmt{Op: "skip", Kind: pick(dt, "skipkind", skipKinds...)})
 	}
-	s.Body = append(s.Body, &Stmt{Op: "draw", Gen: GenGenSpec(dt, inner), Label: "c0"})
+	if cfg.CleanupBeforeSkip && chance(dt, "cearlycleanup", 60) {
+		s.Body = append(s.Body, &Stmt{Op: "cleanup", Body: []*Stmt{{Op: "ctx"}}}, &Stmt{Op: "ctx"})
+	}
+	// first the part that may reject the attempt: draws and data-dependent skips. An attempt that is rejected is
+	// discarded by the library, so nothing with a lasting effect (signals, signalling cleanups) may precede a skip.
+	nd := 1
+	if chance(dt, "cdraw2", 40) {
+		nd = 2
+	}
+	for i := 0; i < nd; i++ {
+		s.Body = append(s.Body, &Stmt{Op: "draw", Gen: GenGenSpec(dt, inner), Label: fmt.Sprintf("c%d", i)})
+		if cfg.CustomStmts && chance(dt, "cskipif", 35) {
+			s.Body = append(s.Body, &Stmt{Op: "if", Cond: genCond(dt), Body: []*Stmt{{Op: "skip", Kind: pick(dt, "skipkind", skipKinds...)}}})
+		}
+	}
 	if cfg.CustomStmts {
-		n := drv.IntRange(0, 3).Draw(dt, "ncstmt")
+		n := drv.IntRange(0, 2).Draw(dt, "ncstmt")
 		for i := 0; i < n; i++ {
-			switch pick(dt, "cstmt", "draw", "cleanup", "ctx", "skipif", "sigif") {
-			case "draw":
-				s.Body = append(s.Body, &Stmt{Op: "draw", Gen: GenGenSpec(dt, inner), Label: fmt.Sprintf("c%d", i+1)})
+			switch pick(dt, "cstmt", "cleanup", "ctx", "sigif") {
 			case "cleanup":
 				s.Body = append(s.Body, genCleanup(dt, 1))
 			case "ctx":
 				s.Body = append(s.Body, &Stmt{Op: "ctx"})
-			case "skipif":
-				s.Body = append(s.Body, &Stmt{Op: "if", Cond: genCond(dt), Body: []*Stmt{{Op: "skip", Kind: pick(dt, "skipkind", skipKinds...)}}})
 			case "sigif":
 				s.Body = append(s.Body, &Stmt{Op: "if", Cond: genCond(dt), Body: []*Stmt{genSig(dt, allSigKinds)}})
 			}
 		}
-	} else if chance(dt, "cdraw2", 40) {
-		s.Body = append(s.Body, &Stmt{Op: "draw", Gen: GenGenSpec(dt, inner), Label: "c1"})
 	}
 	return s
 }
@@ -591,7 +600,9 @@ func genSimpleBlock(dt *drv.T, pc ProgCfg, where string) []*Stmt {
 	n := drv.IntRange(1, 2).Draw(dt, "nblock")
 	for i := 0; i < n; i++ {
 		menu := []string{"sig"}
-		if pc.Skips && where != "inv" {
+		if pc.Skips && where == "body" {
+			// inside actions skips come only in the shapes of genRepeatStmt: a skipped action is discarded by the
+			// library, so nothing with a lasting effect may precede the skip
 			menu = append(menu, "skip")
 		}
 		if pc.Cleanups {
